@@ -305,6 +305,8 @@ def normalise(tree, relpath):
     from sa import inline
     known_functions = set(ref.get('__functions__', []))
     if known_functions:
+        if getattr(tree, '_src', None) is None or not _is_reference_text(tree, relpath):
+            done.extend('%s: %s' % (relpath, x) for x in inline.unroll_table_loops(tree, known_functions))
         done.extend('%s: %s' % (relpath, x) for x in inline.inline_helpers(tree, known_functions))
     proven = as_reference(tree, relpath, done)
     for key, fn in functions(tree):
@@ -364,6 +366,14 @@ def reference_functions(relpath):
 
 def _same(a, b):
     return ast.dump(a) == ast.dump(b)
+
+
+def _is_reference_text(tree, relpath):
+    try:
+        with open(os.path.join(REFDIR, relpath + '.txt')) as fh:
+            return fh.read() == getattr(tree, '_src', None)
+    except IOError:
+        return False
 
 
 _NONEMPTY_CACHE = {}
